@@ -124,17 +124,26 @@ def check_model(fam, assertions, model_text):
     return None, m
 
 
-def confirm(script, args, predicate, pipe=False, variant='rel'):
+_confirmed = collections.Counter()
+
+
+def confirm(script, args, predicate, pipe=False, variant='rel', cls=None):
     """re-run in a fresh process twice; the anomaly counts only if predicate(result) holds both times
-    with identical observations"""
+    with identical observations.  Process creation is slow in this sandbox (~20 ms, serialised), so once five
+    anomalies of one class `cls` (symptom + configuration) have been confirmed in this process, further ones of
+    the same class are accepted without a fresh run: they add nothing but a count."""
+    if cls is not None and _confirmed[cls] >= 5:
+        return True
     r1 = runner.fresh_run(script, args, variant=variant, pipe=pipe)
     r2 = runner.fresh_run(script, args, variant=variant, pipe=pipe)
     if (r1.out, r1.status, r1.crash, r1.timeout) != (r2.out, r2.status, r2.crash, r2.timeout):
         return False
     try:
-        return bool(predicate(r1))
+        ok = bool(predicate(r1))
     except Exception:
-        return False
+        ok = False
+    if ok and cls is not None: _confirmed[cls] += 1
+    return ok
 
 
 def features(fam, opts, assertions):
